@@ -330,7 +330,12 @@ def _run(case, out, w):
                 where = op[3] if len(op) > 3 else None
                 if where is not None:
                     out.label("corrupted_at=" + ("cut" if isinstance(where, list) else "head" if 0 <= where < 8 else "tail" if where < 0 else "body"))
+                moved0 = CORRUPTION_MOVED[0]
                 server.step(clients, k, mutate=lambda n, _b=op[2] if len(op) > 2 else 0, _w=where: corrupt(n, _b, _w))
+                if CORRUPTION_MOVED[0] != moved0:
+                    out.label("corruption_moved_off_the_claimed_identity_key")
+                if LAST_CORRUPTION["certain"]:
+                    m.setdefault("certainly_undecryptable", set()).add(jid)
                 continue
             if k != 0:
                 nt = True
@@ -395,6 +400,32 @@ def _run(case, out, w):
                     scope = "group" if m["to"] in GROUPS else "direct"
                     out.fail("delivery", "delivery:%s:shown_twice:duplicate_stanza_after_retry_resend" % scope,
                              {"message": m["id"], "recipient": jid, "dups": m["dups"].get(jid, 0), "corrupted": jid in m["corrupted"]})
+                    continue
+                if len(got) == 2 and m["dups"].get(jid, 0) >= 1 and retried and jid in m["corrupted"] and jid not in m.get("corrupted_first", ()):
+                    # specific history, the mirror image of the one above: the intact copy was shown, then the server's duplicate
+                    # arrived damaged beyond recognition (unparsable: it cannot even be recognised as a duplicate through the
+                    # ratchet), a retry was requested and the re-sent copy was shown as well
+                    scope = "group" if m["to"] in GROUPS else "direct"
+                    out.fail("delivery", "delivery:%s:shown_twice:retry_after_damaged_duplicate_of_a_shown_message" % scope,
+                             {"message": m["id"], "recipient": jid})
+                    continue
+                if len(got) == 2 and m["dups"].get(jid, 0) >= 1 and m["to"] in GROUPS and jid not in m["corrupted"] and not retried and \
+                        [n for j2, n in server.log if j2 == jid and n.tag == "receipt" and n["type"] == "retry" and n["id"] != m["id"]
+                         and any(m0["id"] == n["id"] and m0["from"] == m["from"] and m0["to"] == m["to"] for m0 in messages)]:
+                    # specific history: both copies of this message were fine; between them the member received the re-sent copy of
+                    # ANOTHER message of the same sender (it had asked for it again), which carries the sender key once more - at a
+                    # chain position that is not behind this message - so the ratchet no longer knows this message's key as used
+                    out.fail("delivery", "delivery:group:shown_twice:duplicate_after_sender_key_reinstalled_by_resend_of_another_message",
+                             {"message": m["id"], "recipient": jid})
+                    continue
+                if len(got) == 0 and m["to"] in GROUPS and jid not in m["corrupted"] and legit_retry(messages, m, jid, server) and not retried \
+                        and [n for j2, n in server.log if j2 == jid and n.tag == "receipt" and not n["type"] and n["id"] == m["id"]]:
+                    # specific history: this copy was fine, but it reached the member while the sender key it depends on was not
+                    # there (the earlier message that carried the key was damaged and its re-sent copy had not come yet) and after a
+                    # LATER message had installed the key at a later position of the chain: the ratchet reports "old counter", which
+                    # the library takes for a duplicate - it acknowledges the message and drops it instead of asking for it again
+                    out.fail("delivery", "delivery:group:dropped_as_duplicate:older_than_the_sender_key_state_installed_first",
+                             {"message": m["id"], "recipient": jid})
                     continue
                 if len(got) != 1:
                     out.fail("delivery", "delivery:%s:message_delivered_%d_times" % (key_kind, len(got)),
@@ -463,6 +494,12 @@ def _run(case, out, w):
         for r in m.get("corrupted_first", ()):
             retries = [n for j, n in server.log if j == r and n.tag == "receipt" and n["type"] == "retry" and n["id"] == m["id"]]
             if not retries:
+                if not m["dups"].get(r, 0) or r not in m.get("certainly_undecryptable", ()):
+                    # the recipient was shown the message exactly once (checked above) and either the damaged copy is the only one it
+                    # ever got, or the damage is outside what the MAC covers: it hit a byte that takes no part in decryption (e.g.
+                    # the registration id or a key id of a first message), the copy could be decrypted, nothing had to be asked for
+                    out.label("corruption_without_effect_on_decryption")
+                    continue
                 out.fail("retry", "retry:no_retry_receipt_for_corrupted_message", {"message": m["id"], "recipient": r})
                 return out
     out.info = {"nt": nt}
@@ -507,6 +544,55 @@ def delivered_to(clients, m):
     return set(j for j in m["recipients"] if any(e.getTag() == "message" and e.getId() == m["id"] for e in clients[j].app_got))
 
 
+CORRUPTION_MOVED = [0]
+LAST_CORRUPTION = {"certain": True}
+
+
+def _identity_field_range(data):
+    return _field_range(data, 3)
+
+
+def _field_range(data, number):
+    """byte range [lo, hi) of field `number` of a serialised PreKeyWhisperMessage (version byte + protobuf); identityKey = 3,
+    the embedded message = 4"""
+    i = 1
+    try:
+        while i < len(data):
+            start = i
+            tag = 0
+            shift = 0
+            while True:
+                b = data[i]
+                i += 1
+                tag |= (b & 0x7F) << shift
+                shift += 7
+                if not b & 0x80:
+                    break
+            field, wt = tag >> 3, tag & 7
+            if wt == 0:
+                while data[i] & 0x80:
+                    i += 1
+                i += 1
+            elif wt == 2:
+                n = 0
+                shift = 0
+                while True:
+                    b = data[i]
+                    i += 1
+                    n |= (b & 0x7F) << shift
+                    shift += 7
+                    if not b & 0x80:
+                        break
+                i += n
+            else:
+                return (0, 0)
+            if field == number:
+                return (start, i)
+    except IndexError:
+        pass
+    return (0, 0)
+
+
 def corrupt(node, which, where=None):
     """where: None = the middle byte; an int = that byte position (negative from the end: the MAC; 0 = the version byte, 1.. = the
     framing of the serialised message); ["cut", n] = only the first n bytes arrive"""
@@ -517,11 +603,27 @@ def corrupt(node, which, where=None):
         if c is target:
             d = bytearray(c.data)
             if where is None:
-                d[len(d) // 2] ^= 0x5A
+                pos = len(d) // 2
             elif isinstance(where, list):
+                pos = None
                 d = d[:max(1, min(len(d) - 1, where[1]))]
             else:
-                d[where % len(d)] ^= 0x5A
+                pos = where % len(d)
+            if pos is not None:
+                lo, hi = _identity_field_range(bytes(d)) if c["type"] == "pkmsg" else (0, 0)
+                if lo <= pos < hi:
+                    # the identity key a first message claims for its sender is not ciphertext: a different key there is a changed
+                    # identity, which the recipient refuses or pins by design (C17) - the damage is moved into the ciphertext
+                    pos = hi + (pos - lo) % max(1, len(d) - hi)
+                    CORRUPTION_MOVED[0] += 1
+                d[pos] ^= 0x5A
+                # certainly undecryptable: everything in a message or sender-key message is covered by its MAC / signature; of a
+                # first message only the embedded message is (the key ids and the registration id around it are not, and are not
+                # even looked at when the session exists already)
+                mlo, mhi = _field_range(bytes(c.data), 4) if c["type"] == "pkmsg" else (0, len(d))
+                LAST_CORRUPTION["certain"] = mlo <= pos < mhi
+            else:
+                LAST_CORRUPTION["certain"] = True
             children.append(N("enc", dict(c.attributes), None, bytes(d)))
         else:
             children.append(c)
